@@ -175,3 +175,15 @@ theorem C08_scalar_offset_is_constant_array (models : ModelsArg C D ℝ) (ubm : 
     (x : ℝ) (norm : Bool) (eps : ℝ) :
     linearScoring models ubm tests (.scalar x) norm eps = linearScoring models ubm tests (.shared fun _ _ => x) norm eps := by
   simp [linearScoring, OffArg.get]
+
+/-- the score is a sum over the components, hence does not depend on how they are numbered: UBM,
+model, statistics and offsets relabelled together give the same score (raw or normalised) -/
+theorem C08_component_order_irrelevant (um uv model : Fin C → Fin D → ℝ) (st : LStat C D ℝ)
+    (off : Fin C → Fin D → ℝ) (norm : Bool) (eps : ℝ) (σ : Equiv.Perm (Fin C)) :
+    linearScore (fun c => um (σ c)) (fun c => uv (σ c)) (fun c => model (σ c))
+        { st with n := fun c => st.n (σ c), sumPx := fun c => st.sumPx (σ c) } (fun c => off (σ c)) norm eps
+      = linearScore um uv model st off norm eps := by
+  simp only [linearScore, sumFin_eq]
+  exact Equiv.sum_comp σ fun c => ∑ d, (model c d - um c d) / uv c d *
+    (if norm = true then (if absv st.t ≤ eps then 0 else (st.sumPx c d - st.n c * (um c d + off c d)) / st.t)
+     else st.sumPx c d - st.n c * (um c d + off c d))
